@@ -75,6 +75,47 @@ def generate(tier, rng):
                                                  rng.choice(ROUNDS), rng.choice(OVFS), L(a), L(b))
 
 
+    # a whole array of dividends over one divisor (array / scalar object), the dividends multiples of the divisor code so that every
+    # quotient is representable: "exact whenever the quotient is representable", by both methods (a reciprocal-multiply shortcut of
+    # the value method is off by an ulp for divisors that are not powers of two)
+    for _ in range(300 if tier == 'quick' else 8000):
+        sx, sy = rng.random() < 0.5, rng.random() < 0.5
+        ny = rng.randint(6 + int(sy), 14)
+        nx = min(24, ny + rng.randint(2, 10))
+        x = (sx, nx, rng.randint(0, nx)); y = (sy, ny, rng.randint(0, ny))
+        if result_word('truediv', x, y) > 53:
+            continue
+        lox, hix = lims(*x[:2]); loy, hiy = lims(*y[:2])
+        cb = rng.choice([rng.randint(49, hiy) | 1, rng.randint(25, hiy // 2) * 2 + 0 if hiy >= 100 else 49, 49, 75, 77, 91, 93, 99, 103])
+        if not (loy <= cb <= hiy):
+            continue
+        if sy and rng.random() < 0.3:
+            cb = -cb
+        mmax = hix // abs(cb)
+        if mmax < 2:
+            continue
+        a = [rng.randint(1, mmax) * abs(cb) * (rng.choice([1, -1]) if sx else 1) for _ in range(rng.choice([2, 3, 4, 6]))]
+        a = [max(lox, min(hix, v)) for v in a]
+        yield 'DV truediv %s %s %s %s %s %s %s %s' % (rng.choice(['repr', 'repr', 'raw']), rng.choice(['operator', 'function']), fm(x), fm(y),
+                                                       rng.choice(['trunc', 'floor', 'fix', 'ceil', 'around']), rng.choice(OVFS), L(a), L([cb]))
+
+
+    # tiny words with fraction lengths far from the word (a result with 64 fraction bits and more in a word of a few bits: the
+    # pre-scaled dividend is a python integer there), scalars and arrays, mixed signedness
+    for _ in range(150 if tier == 'quick' else 3000):
+        sx, sy = rng.random() < 0.7, rng.random() < 0.4
+        nx, ny = rng.randint(1 + int(sx), 5), rng.randint(1 + int(sy), 5)
+        x = (sx, nx, rng.randint(50, 75)); y = (sy, ny, rng.choice([0, 0, -rng.randint(1, 56), rng.randint(0, ny)]))
+        if result_word('truediv', x, y) > 53:
+            continue
+        lox, hix = lims(sx, nx); loy, hiy = lims(sy, ny)
+        k = rng.choice([1, 1, 2])
+        a = [rng.choice([lox, hix, -1 if sx else 1, rng.randint(lox, hix)]) for _ in range(k)]
+        b = [rng.choice([hiy, 1, rng.randint(loy, hiy)]) or 1 for _ in range(rng.choice([1, k]))]
+        yield 'DV truediv %s %s %s %s %s %s %s %s' % (rng.choice(['raw', 'repr']), rng.choice(['operator', 'function']), fm(x), fm(y),
+                                                       rng.choice(ROUNDS), rng.choice(OVFS), L(a), L(b))
+
+
 def nontrivial(full_line, model):
     return True
 
